@@ -17,6 +17,7 @@ from vf import instrument as I
 from vf import fits as FT
 
 ID = "C03"
+TECHNIQUE = 'runtime monitoring: offline checker over recorded digests of the same real fit executed in different contexts (fresh/warmed/concurrent processes, hash seeds, BLAS threads, perturbed global RNG, batch orders, near-duplicate meters, re-used model objects)'
 LEVEL = "exploration"
 CASE_TIMEOUT = 3600
 RULE = ("datasets per family (daily current+legacy+developer, billing, hourly with explicit seed (incl. seed 0 on meters with irregular load shapes and with a supplemental column) solar/non-solar/developer, CalTRACK hourly) x contexts "
